@@ -127,4 +127,5 @@ func registerAll() {
 	registerProc()
 	registerC10()
 	registerC08()
+	registerC09()
 }
